@@ -264,11 +264,14 @@ def main(argv=None):
         wall_s=round(wall, 2),
         violations=len(new_groups))
     if not args.only:
-        os.makedirs(os.path.join(ROOT, 'evidence'), exist_ok=True)
-        tmp = os.path.join(ROOT, 'evidence', f'.{prop}.json.tmp')
+        # evidence/ describes runs against /repo itself; a run pointed at another tree (VERIF_REPO: scratch worktrees with
+        # seeded changes, the self-test) writes beside it, under the git-ignored .work/
+        edir = os.path.join(ROOT, 'evidence') if os.path.realpath(REPO) == '/repo' else os.path.join(ROOT, '.work', 'evidence-other-tree')
+        os.makedirs(edir, exist_ok=True)
+        tmp = os.path.join(edir, f'.{prop}.json.tmp')
         with open(tmp, 'w') as f:
             json.dump(ev, f, indent=1, default=str)
-        os.replace(tmp, os.path.join(ROOT, 'evidence', f'{prop}.json'))
+        os.replace(tmp, os.path.join(edir, f'{prop}.json'))
 
     for k, rec in sorted(known_hit.items()):
         e = rec['entry']
